@@ -419,6 +419,13 @@ def check_walk(ctx, rep, rule='T-walk'):
         rep.ob(rule, 'walk-starts-at-i', pre_ok, 'the walk must start at position i', loc=b.loc(b.j['line_lo']), reason='provenance')
         # body of the walk loop
         li = p.events.index(lh[0]) if lh else 0
+        # before the walk: the contour receives its first vertex, the point of the start event (the walk pushes the point of every
+        # event it moves to, and ends when it is back at this point without pushing it again)
+        first = [e for e in p.events[:li] if e['k'] == 'call' and e['depth'] == 0 and e['callee'].endswith('::push')
+                 and 'points' in show(noepoch(e['args'][0]))]
+        rep.ob(rule, 'contour-starts-with-start-point', len(first) == 1 and event_index(first[0]['args'][1], p) == 'i',
+               'before the walk the point of result_events[i] must be pushed onto the new contour exactly once; found %s'
+               % [event_index(e['args'][1], p) for e in first], loc=b.loc(init['line']), reason='provenance')
         body = [e for e in p.events[li:] if e['k'] == 'call' and e['depth'] == 0]
         bn = [short(e['callee']).split('::')[-1] for e in body]
         marks = [e for e in body if e['callee'] == MARK]
@@ -650,6 +657,54 @@ def check_vertex_cycle(ctx, rep, rule='T-vertex-cycle'):
     rep.ob(rule, 'scans', r_ok and l_ok,
            'the R scan must advance over events identical to the group\'s first event that are not left events, the L scan over identical '
            'events; found R scan %s, L scan %s' % (sorted(scans[heads[1]]), sorted(scans[heads[2]])), loc=b.loc(b.j['line_lo']), reason='table-row')
+    # the scan variable: starts at 0, every scan step advances it by exactly one, and a group / a scan step is only entered
+    # while it is below data.len()
+    why = []
+    first = [e for p in ps for e in p.events if e['k'] == 'loophead' and e['bb'] == heads[0]]
+    init = strip_upd(first[0].get('pre', {}).get(ilocal, ('c', None))) if first else ('c', None)
+    if not (sym.is_const(init) and init[1] == 0 and not isinstance(init[1], bool)):
+        why.append('the scan does not start at index 0 (starts at %s)' % show(noepoch(init))[:30])
+
+    def below_len(p, header):
+        """the path assumes  i < data.len()  for the scan variable as it is at `header`"""
+        me = names[(header, ilocal)]
+        for (v, c) in p.conds:
+            x = strip_upd(v)
+            if x[0] != 'op' or len(x) != 4 or x[1] not in ('lt', 'gt', 'le', 'ge', 'ne', 'eq') or c[0] != 'eq':
+                continue
+            d, k_ = _comb(_lin(x[2], names), _lin(x[3], names), -1)
+            lens = [s_ for s_ in d if 'len(' in s_]
+            if set(d) - set(lens) != {me} or len(lens) != 1 or d[me] + d[lens[0]] != 0 or abs(d[me]) != 1:
+                continue
+            # d = +-(i - len) + k_ ; truth for i - len in -2..2 must be exactly (i - len < 0)
+            ok_ = True
+            for delta in (-2, -1, 0, 1, 2):
+                val = d[me] * delta + k_
+                t = {'lt': val < 0, 'gt': val > 0, 'le': val <= 0, 'ge': val >= 0, 'ne': val != 0, 'eq': val == 0}[x[1]]
+                ok_ = ok_ and (t == bool(c[1])) == (delta < 0)
+            if ok_:
+                return True
+        return False
+
+    n_scan = 0
+    for p in ps:
+        if p.end == 'backedge' and p.end_info in (heads[1], heads[2]):
+            n_scan += 1
+            fin = None
+            for k, v in p.final.mem.items():
+                if k[0][0] == 'loc' and k[0][2] == ilocal and k[1] == ():
+                    fin = _lin(v, names)
+            me = names[(p.end_info, ilocal)]
+            if fin != ({me: 1}, 1):
+                why.append('a scan step does not advance the index by exactly one (%s -> %s)' % (me, fin))
+            if not below_len(p, p.end_info):
+                why.append('a scan step is taken without the index being below data.len()')
+        hs = [e['bb'] for e in p.events if e['k'] == 'loophead']
+        if heads[0] in hs and heads[1] in hs[hs.index(heads[0]):] and not below_len(p, heads[0]):
+            why.append('a vertex group is started without the index being below data.len()')
+    rep.ob(rule, 'scan-steps', not why and n_scan >= 2,
+           'the scans of precompute_iteration_order must visit every index once, inside the data: %s' % '; '.join(sorted(set(why))[:3]),
+           loc=b.loc(b.j['line_lo']), reason='dominance')
     check_vertex_predicates(ctx, rep, rule)
 
 
